@@ -1313,10 +1313,18 @@ class ManifestRecursiveLoader:
                             # into .aux_path
                             fe.path = os.path.relpath(fe.aux_path,
                                                       mdirpath)
-                            assert path_inside_dir(fe.path, 'files')
-                            # drop files/ prefix for the entry
-                            fe.aux_path = os.path.relpath(
-                                fe.path, 'files')
+                            if path_inside_dir(fe.path, 'files'):
+                                # drop files/ prefix for the entry
+                                fe.aux_path = os.path.relpath(
+                                    fe.path, 'files')
+                            else:
+                                # AUX can only be expressed relative
+                                # to the package directory; if another
+                                # Manifest governs the file, list it
+                                # as plain DATA
+                                fe = new_manifest_entry(
+                                    'DATA', fe.path, fe.size,
+                                    fe.checksums)
                         else:
                             fe.path = os.path.relpath(fe.path, mdirpath)
                         # do not add duplicate entry if the path is ignored
